@@ -71,12 +71,16 @@ fn c11_est<E: Est>(out: &mut Out, tier: &str, rng: &mut Rng) {
         let acc_a = acc_words(&a.accessors());
         // clone is part of the histories: a clone carries exactly the state of the original
         out.x(words(&a.clone()) == before, || format!("{}: clone() = {} differs from the original {}", E::NAME, words(&a.clone()), before));
-        // a.merge(empty)
+        // a.merge(empty), the empty estimator constructed by new() and by Default
         let empty = E::new();
         let mut x = a.clone();
         x.merge(&empty);
         out.t(E::NAME, "merge", &before, &words(&empty), &words(&x));
         out.x(acc_words(&x.accessors()) == acc_a, || format!("{}: merging an empty estimator changed a statistic: {:?} -> {:?}", E::NAME, acc_a, acc_words(&x.accessors())));
+        { let d = E::default(); let mut xd = a.clone(); xd.merge(&d);
+          out.x(acc_words(&xd.accessors()) == acc_a, || format!("{}: merging a default() estimator changed a statistic: {:?} -> {:?}", E::NAME, acc_a, acc_words(&xd.accessors())));
+          let mut yd = E::default(); yd.merge(a);
+          out.x(acc_words(&yd.accessors()) == acc_a, || format!("{}: merging into a default() estimator: {:?} vs {:?}", E::NAME, acc_words(&yd.accessors()), acc_a)); }
         out.x(words(&empty) == words(&E::new()), || format!("{}: merge modified its (empty) argument", E::NAME));
         // empty.merge(a)
         let mut y = E::new();
@@ -461,7 +465,7 @@ pub fn c17(out: &mut Out, tier: &str, rng: &mut Rng) {
 
 // ------------------------------------------------------------------ C20
 
-use crate::concat::{Four, MeanMax, VarSkew};
+use crate::concat::{Four, MeanMax, ShortNonHeadline, VarSkew};
 use average::{Estimate, Kurtosis, Max, Mean, Min, Quantile, Skewness, Variance};
 
 fn c20_est<E: Est>(out: &mut Out, tier: &str, rng: &mut Rng) {
@@ -548,6 +552,9 @@ fn c20_concat(out: &mut Out, tier: &str, rng: &mut Rng) {
                 && same(c.min(), min.min()) && same(c.max(), max.max()) && same(c.kurtosis(), kurt.kurtosis()) && same(c.skewness(), kurt.skewness())
                 && same(c.quantile(), q.quantile());
             out.x(ok, || format!("concatenate! struct (construction path {}) reports different statistics than the underlying estimators on {:?}", which, &d[..d.len().min(8)]));
+            let sn: ShortNonHeadline = match which { 0 => { let mut e = ShortNonHeadline::new(); for x in d { e.add(*x); } e } 1 => { let mut e = ShortNonHeadline::default(); for x in d { e.add(*x); } e } _ => d.iter().collect() };
+            out.x(same(sn.sample_variance(), var.sample_variance()) && same(sn.skewness(), kurt.skewness()) && same(sn.error_mean(), skew.error_mean()),
+                  || format!("concatenate! short syntax with non-headline statistics (path {}): sample_variance {:?} vs {:?}, skewness {:?} vs {:?}", which, sn.sample_variance(), var.sample_variance(), sn.skewness(), kurt.skewness()));
         }
         out.note("concatenate");
     }
